@@ -46,7 +46,7 @@ CSet(t, w) ==
      /\ UNCHANGED <<next, pend>>
 
 CAddTo(s, t) ==
-  /\ s \in Live /\ t \in Live /\ s # t
+   /\ s \in Live /\ t \in Live     \* s = t allowed: a column may be added to itself
   /\ CSet(t, AddV(cols[t], cols[s]))
   /\ act' = [op |-> "add", s |-> s, t |-> t]
 CAddRangeTo(v, t, o) ==
@@ -54,7 +54,7 @@ CAddRangeTo(v, t, o) ==
   /\ CSet(t, AddV(cols[t], v))
   /\ act' = [op |-> "add_r", v |-> VT(v), t |-> t, o |-> o]
 CMulTargetAndAdd(s, c, t) ==
-  /\ s \in Live /\ t \in Live /\ s # t
+   /\ s \in Live /\ t \in Live     \* s = t allowed: a column may be added to itself
   /\ CSet(t, AddV(ScaleV(c, cols[t]), cols[s]))
   /\ act' = [op |-> "mta", s |-> s, c |-> c, t |-> t]
 CMulTargetAndAddRange(v, c, t, o) ==
@@ -62,7 +62,7 @@ CMulTargetAndAddRange(v, c, t, o) ==
   /\ CSet(t, AddV(ScaleV(c, cols[t]), v))
   /\ act' = [op |-> "mta_r", v |-> VT(v), c |-> c, t |-> t, o |-> o]
 CMulSourceAndAdd(c, s, t) ==
-  /\ s \in Live /\ t \in Live /\ s # t
+   /\ s \in Live /\ t \in Live     \* s = t allowed: a column may be added to itself
   /\ CSet(t, AddV(cols[t], ScaleV(c, cols[s])))
   /\ act' = [op |-> "msa", s |-> s, c |-> c, t |-> t]
 CMulSourceAndAddRange(c, v, t, o) ==
